@@ -32,6 +32,11 @@ type conn struct {
 	reader   *bufio.Reader
 	writer   *bufio.Writer
 	writerMu sync.Mutex // shared lock across all ResponseWriter's to prevent write data races
+
+	// recoverPanics is set by the server (unless WithDisablePanicRecovery was
+	// given): a panic in a request handler is then caught and logged instead
+	// of crashing the process
+	recoverPanics bool
 }
 
 // newConn will create a new Conn from an accepted net.Conn which will be used
@@ -137,6 +142,15 @@ func (c *conn) serveRequests() error {
 					c.logger.Debug("requestsWg done", "op", op, "conn", c.connID, "requestID", w.requestID)
 					c.requestsWg.Done()
 				}()
+				if c.recoverPanics {
+					// handlers run on their own goroutine, out of reach of the
+					// recover() of the connection's goroutine
+					defer func() {
+						if rec := recover(); rec != nil {
+							c.logger.Error("Caught panic while serving request", "op", op, "conn", c.connID, "requestID", w.requestID, "panic", fmt.Sprintf("%+v", rec))
+						}
+					}()
+				}
 				c.router.serve(w, r)
 			}()
 		}
